@@ -315,6 +315,36 @@ func c16ts(c *Ctx) {
 			derived = "parent.New(time options) without a name"
 			c.R.Add("cases_through_an_anonymous_child_made_with_time_options", 1)
 		}
+		// ... or a child made by parent.WithJSONMode(..) / parent.WithColorMode(..) - "the same logger in another output
+		// format" - of a parent that HAS a layout and a zone mode of its own: the child was given neither (it may get a
+		// layout of its own afterwards), so the flags decide for it
+		if derived == "-" && utc == 0 && r.P(20) {
+			pf := Format(r.Intn(3))
+			parent := newRoot(gen.Pick(r, []string{"", "t16"}), pf, w, slog.AlwaysLevel)
+			parent.SetTimeFormat(gen.Pick(r, c16layouts))
+			parent.SetUTCMode(r.Bool())
+			var child *slog.Entry
+			switch f {
+			case FJSON:
+				child = parent.WithJSONMode(true)
+			case FColor:
+				child = parent.WithColorMode(true)
+			default:
+				if pf == FJSON {
+					child = parent.WithJSONMode(false)
+				} else {
+					child = parent.WithColorMode(false)
+				}
+				child.SetJSONMode(false).SetColorMode(false)
+			}
+			child.SetWriter(w).SetErrorWriter(w)
+			if layout != "" {
+				child.SetTimeFormat(layout)
+			}
+			lg = child
+			derived = "a WithJSONMode / WithColorMode child of a parent that has a layout and a zone mode of its own"
+			c.R.Add("cases_through_a_format_variant_child_of_a_parent_with_time_settings", 1)
+		}
 		// the logger may be the process's default logger while the application calls the package-level Reset() (which
 		// restores the package's level and flags): the logger's own time options are no business of that call
 		if r.P(10) {
